@@ -58,46 +58,46 @@ type queryObs struct {
 }
 
 type obs struct {
-	ID      int            `json:"id"`
-	Kind    string         `json:"kind"` // plan | fault | second | query
-	Limits  map[string]int `json:"limits"`
-	Before  []fileObs      `json:"before"`
-	After   []fileObs      `json:"after"`
-	Ret     string         `json:"ret"` // nil | err | cleanup | inprogress
-	StatsNil bool          `json:"stats_nil"`
-	Fault   string         `json:"fault"`
-	Reached bool           `json:"reached"`
-	Updates []map[string]int `json:"updates"`
-	Tombs   []tombObs      `json:"tombs"`
-	RowsBefore []string    `json:"rows_before"`
-	RowsAfter  []string    `json:"rows_after"`
-	QErrAfter  bool        `json:"qerr_after"`
-	Orphans int            `json:"orphans"` // published, unreferenced files left in the DataStore that are not sources
-	Second  string         `json:"second"`
-	Query   queryObs       `json:"query"`
-	Stdio   int            `json:"stdio"`
+	ID         int              `json:"id"`
+	Kind       string           `json:"kind"` // plan | fault | second | query
+	Limits     map[string]int   `json:"limits"`
+	Before     []fileObs        `json:"before"`
+	After      []fileObs        `json:"after"`
+	Ret        string           `json:"ret"` // nil | err | cleanup | inprogress
+	StatsNil   bool             `json:"stats_nil"`
+	Fault      string           `json:"fault"`
+	Reached    bool             `json:"reached"`
+	Updates    []map[string]int `json:"updates"`
+	Tombs      []tombObs        `json:"tombs"`
+	RowsBefore []string         `json:"rows_before"`
+	RowsAfter  []string         `json:"rows_after"`
+	QErrAfter  bool             `json:"qerr_after"`
+	Orphans    int              `json:"orphans"` // published, unreferenced files left in the DataStore that are not sources
+	Second     string           `json:"second"`
+	Query      queryObs         `json:"query"`
+	Stdio      int              `json:"stdio"`
 }
 
 // ---------------------------------------------------------------------------
 
 type ctl struct {
-	mu      sync.Mutex
-	active  bool
-	counts  map[string]int
-	fault   string // "kind#nth"
-	reached bool
+	mu        sync.Mutex
+	active    bool
+	counts    map[string]int
+	fault     string // "kind#nth"
+	reached   bool
 	committed bool
-	tombs   []tombObs
-	updates []map[string]int
-	sources map[string]bool
-	hold    string // "kind#nth": block there until release
-	holdCh  chan struct{}
-	arrived chan struct{}
-	qhold    string
-	qholdCh  chan struct{}
-	qarrived chan struct{}
-	qgid     int64
-	qcounts  map[string]int
+	tombs     []tombObs
+	updates   []map[string]int
+	sources   map[string]bool
+	hold      string // "kind#nth": block there until release
+	holdCh    chan struct{}
+	arrived   chan struct{}
+	qhold     string
+	qholdCh   chan struct{}
+	qarrived  chan struct{}
+	qgid      int64
+	qcounts   map[string]int
 }
 
 func (c *ctl) Before(op *h.StoreOp) error {
@@ -445,10 +445,27 @@ func main() {
 	// ---- C12 / C11: plain merges over random populations and limits
 	for i := 0; i < nPlan; i++ {
 		w := newWorld(rng, scratch, id, rng.Intn(4) == 0)
-		w.population(2+rng.Intn(5), false)
-		l := limits{mr: 2 + rng.Intn(6), mb: 100 + rng.Intn(600), mf: 2 + rng.Intn(4), ms: 200 + rng.Intn(3000)}
-		if rng.Intn(3) == 0 {
-			l.ms = 1 << 30
+		var l limits
+		if i%4 == 3 {
+			// stacked: many small single-block files of one partition and key set, so that one output block
+			// combines four and more source blocks and either the byte or the row limit is what stops it
+			nf := 5 + rng.Intn(5)
+			pad := 20 + rng.Intn(80)
+			withKey := rng.Intn(2) == 0
+			for fi := 0; fi < nf; fi++ {
+				w.buildFile(fi, []blockSpec{{part: "pa", withKey: withKey, rows: 1 + rng.Intn(2), pad: pad + rng.Intn(8)}})
+			}
+			per := 70 + pad // roughly one row's uncompressed bytes
+			l = limits{mr: 50, mb: per*3 + rng.Intn(per*3), mf: 4 + rng.Intn(6), ms: 1 << 30}
+			if rng.Intn(3) == 0 {
+				l.mr, l.mb = 3+rng.Intn(4), 1<<20
+			}
+		} else {
+			w.population(2+rng.Intn(5), false)
+			l = limits{mr: 2 + rng.Intn(6), mb: 100 + rng.Intn(600), mf: 2 + rng.Intn(4), ms: 200 + rng.Intn(3000)}
+			if rng.Intn(3) == 0 {
+				l.ms = 1 << 30
+			}
 		}
 		eng := w.mergeEngine(l)
 		for k := 0; k < 1+rng.Intn(3); k++ {
